@@ -137,6 +137,9 @@ func checkC18(c *Case, st *Stats) string {
 	if msg := rawControlPairs(c, st); msg != "" {
 		return msg
 	}
+	if msg := escapeStylePairs(c, st); msg != "" {
+		return msg
+	}
 	if base.err == nil {
 		st.Class("outcome:values")
 	} else {
@@ -161,6 +164,53 @@ func checkC18(c *Case, st *Stats) string {
 			}
 			return map[string]interface{}{"spellings": ts, "doc": docText, "outcome": outcomeOf(base)}
 		})
+	}
+	return ""
+}
+
+// escapeStylePairs: a quoted name written with every character as a \uXXXX escape (and U+FFFD as
+// a lone surrogate escape followed by another escape) means the same in both quote styles, and
+// the same as the plain spelling.
+func escapeStylePairs(c *Case, st *Stats) string {
+	for i := range c.AST.Steps {
+		s := &c.AST.Steps[i]
+		if s.Kind != gen.KName || s.Rec || len(c.Path)%2 == 1 {
+			continue
+		}
+		var texts, outcomes []string
+		prefix := gen.RenderSteps(append([]gen.Step(nil), c.AST.Steps[:i]...)).Text
+		rest := gen.Render(&gen.Path{Root: gen.RootOmitted, Steps: c.AST.Steps[i+1:]}, gen.Canon).Text
+		if len(c.AST.Steps[i+1:]) > 0 && c.AST.Steps[i+1].Kind == gen.KName && c.AST.Steps[i+1].Not == gen.NDot && !c.AST.Steps[i+1].Rec {
+			rest = "." + rest
+		}
+		if rest != "" && rest[0] != '[' && rest[0] != '.' {
+			continue // the continuation cannot simply be appended to a bracket (a dot-wildcard, say)
+		}
+		sels := []string{gen.QuoteName(s.Key, gen.NSQ, 0), gen.QuoteName(s.Key, gen.NSQ, 3), gen.QuoteName(s.Key, gen.NDQ, 3)}
+		if strings.ContainsRune(s.Key, 0xfffd) {
+			sels = append(sels, gen.QuoteNameSurrogateAll(s.Key, gen.NSQ), gen.QuoteNameSurrogateAll(s.Key, gen.NDQ))
+		}
+		for _, sel := range sels {
+			text := prefix + "[" + sel + "]" + rest
+			lib := evalLibrary(&Case{Path: text, Funcs: true}, c.Document(), false)
+			st.Eval(1)
+			texts = append(texts, text)
+			switch {
+			case lib.parseErr != nil:
+				outcomes = append(outcomes, "rejected: "+lib.parseErr.Error())
+			case lib.err != nil:
+				outcomes = append(outcomes, "error: "+reflect.TypeOf(lib.err).Name())
+			default:
+				outcomes = append(outcomes, "values: "+JSONString(lib.got))
+			}
+		}
+		st.Class("escape-style-pairs")
+		for k := 1; k < len(outcomes); k++ {
+			if outcomes[k] != outcomes[0] {
+				return fmt.Sprintf("spellings of one name disagree: %s -> %s, but %s -> %s", texts[0], outcomes[0], texts[k], outcomes[k])
+			}
+		}
+		break // one name step per case
 	}
 	return ""
 }
